@@ -30,7 +30,7 @@ pub fn run(run: &mut Run, mode: Mode) {
         "{which}: StateAnimatorBuilder-built animators over a 5-state enum; ALL histories of length {depth} over the alphabet \
         {{advance 0, 1/512, 1/8, 1, 7.5; set_state A..E}} on 5 hand-picked configurations (finite, delayed, Times(n), \
         reversing, infinite, merged, 100%-only, 0%-only, sparse, very slow (cycles of 2^14..2^18 s), un-animated states) plus seed-dependent random \
-        configurations, and random histories of length 30-200 on random configurations (7 shapes, all 29 easings) each \
+        configurations, and random histories of length 30-200 on random configurations (8 shapes incl. a remote proxy, all 29 easings) each \
         followed by probe suffixes set_state(s);advance(d) for every s; {}; non-trivial = a set_state to a different state \
         (C04) / an operation on an animated state (C05); distinct = (transition kind, source/target state kind, phase of \
         the source timeline, zero-length advance interleaved?, configuration)",
@@ -80,7 +80,23 @@ pub fn run(run: &mut Run, mode: Mode) {
 }
 
 fn random_case<S: Shape>(r: &mut Rng, acc: &mut Acc, mode: Mode, index: u64, verbose: bool) {
-    let spec = random_anim_opt::<S>(r, mode == Mode::C04);
+    let mut spec = random_anim_opt::<S>(r, mode == Mode::C04);
+    if mode == Mode::C05 && r.chance(1, 4) {
+        // initial values of wide properties that f32 cannot represent: the first evaluation legitimately rounds them
+        // to f32 precision (C14), and "the timeline evaluated at the time spent in the state" is that rounded value —
+        // also right after set_state, before any advance (C04 leaves such values out: there the rounding is a jump)
+        let mut v: Vec<f64> = spec.initial_values.clone().unwrap_or_else(|| vec![0.0; S::n()]);
+        for (i, k) in S::KINDS.iter().enumerate() {
+            match k {
+                Kind::F64 => v[i] = *r.pick(&[0.1f64, -1234.56789, 16777217.0, 1.0e-3]),
+                Kind::I64 => v[i] = *r.pick(&[1099511627777.0f64, -16777217.0, 33554433.0]),
+                Kind::U64 | Kind::U32 => v[i] = *r.pick(&[16777217.0f64, 33554435.0, 4000000001.0]),
+                Kind::I32 => v[i] = *r.pick(&[16777217.0f64, -33554433.0]),
+                _ => {}
+            }
+        }
+        spec.initial_values = Some(v);
+    }
     let len = 30 + r.usize(171);
     let grid = r.chance(2, 3);
     let ops = random_history(r, len, grid);
